@@ -3,6 +3,7 @@ package lastgersync
 import (
 	"context"
 	"fmt"
+	"math/big"
 	"time"
 
 	"github.com/agglayer/aggkit/l1infotreesync"
@@ -76,10 +77,16 @@ func New(
 		)
 
 	case PP:
+		// the blocks that the reorg detector considers final are the ones the downloader may leave behind
+		rdFinality := rdL2.GetFinalizedBlockType()
+		var finalizedBlockType *big.Int
+		if finalizedBlockType, err = rdFinality.ToBlockNum(); err != nil {
+			return nil, err
+		}
 		downloader, err = newDownloaderPP(
 			l2Client, l2GERManagerAddr,
 			l1InfoTreeSync, processor,
-			rh, bf, waitForNewBlocksPeriod,
+			rh, bf, waitForNewBlocksPeriod, finalizedBlockType,
 		)
 
 	default:
